@@ -356,6 +356,13 @@ func (r *c09Rig) run(plan c09Plan, tag string) c09Outcome {
 						mgr.RemoveTransport("tcp", host, 5060+h, fmt.Sprintf("OPTIONS-b%d", i%5))
 						mgr.RemoveTransport("udp", host, 5060, "")
 					}
+					if i%40 == 7 {
+						// a minute passes: the next GetTransport runs the periodic sweep of the table
+						mgr.Lock()
+						mgr.lastCleanTime = time.Now().Unix() - 61
+						mgr.Unlock()
+						V.ExtraAdd("transport_table_sweeps_forced", 1)
+					}
 					name := fmt.Sprintf("hammer-%d.verif.invalid", i%3)
 					res.ResolveHost(name, func(string, []string, []string) {})
 					res.GetAddrsOfHost(name)
@@ -371,7 +378,14 @@ func (r *c09Rig) run(plan c09Plan, tag string) c09Outcome {
 	}
 	wg.Wait()
 	atomic.StoreInt32(&r.stop, 1)
-	bg.Wait()
+	bgDone := make(chan struct{})
+	go func() { bg.Wait(); close(bgDone) }()
+	select {
+	case <-bgDone:
+	case <-time.After(30 * time.Second):
+		setFail("the goroutines exercising the buffer pool, the transport table and the resolver did not finish within 30 s after being told to stop: one of them is wedged inside a product call (deadlock)")
+		return out
+	}
 	// leave the pools empty and settled for the next plan
 	for pi := range r.pools {
 		dynamicHostResolver.addressResolved(r.pools[pi], []string{}, nil)
